@@ -319,6 +319,10 @@ def run (st : St) (args : List Str) (impl : String) : St × String × String × 
       let o := s!"create={cls r1} update-named={cls r2} update-string={cls r3} value={if kept then encField (str "{\"a\":1}") else "changed"} create-named={cls r4} exists={encBool (aget s4.vals (a ++ str ".2")).isSome} cbs={(c1 ++ c2 ++ c3 ++ c4).length} quiet={quiet}"
       (st, o, o, "untyped")
     else if c = str "slow" then (st, "ok", "-", "triv-slow")
+    else if c = str "initbad" then
+      -- an invalid seed among valid ones: Init is all-or-nothing (never half-seeding); once the store is
+      -- marked, Init returns before it looks at the seeds
+      if st.seeded then (st, "ok cbs=-", "ok cbs=-", "initbad-marked") else (st, "err cbs=-", "err cbs=-", "initbad")
     else if c = str "delete" then
       let (o, st', tag) := mutate st a .delete
       (st', o, o, "delete-" ++ tag)
